@@ -8,6 +8,7 @@ import (
 	"io"
 	"math"
 	"reflect"
+	"sort"
 	"time"
 	"unicode/utf8"
 
@@ -326,7 +327,15 @@ func FromGoType(obj interface{}) Object {
 // in the map is of a type that can't be converted, an error is returned.
 func AsObjects(m map[string]any) (map[string]Object, error) {
 	result := make(map[string]Object, len(m))
-	for k, v := range m {
+	// Visit the names in sorted order, so that the error reported when several
+	// values cannot be converted is always the same one
+	names := make([]string, 0, len(m))
+	for k := range m {
+		names = append(names, k)
+	}
+	sort.Strings(names)
+	for _, k := range names {
+		v := m[k]
 		switch v := v.(type) {
 		case nil:
 			result[k] = Nil
